@@ -145,4 +145,7 @@ def run(tier, seed):
         tlsextra.fingerprint_collision_cases(res, tmp2, "C05")
     finally:
         shutil.rmtree(tmp2, ignore_errors=True)
+    # the fingerprint string itself: real get_certificate_fingerprint vs Model/Certs.v on hashlib's digest of the DER bytes
+    import certsfmt
+    certsfmt.run_format(res, tier)
     return res
